@@ -93,6 +93,18 @@ def with_noise(battery, name="battery_with_rejected_application_calls"):
     return Enumeration(name, make, exhaustive=True)
 
 
+def with_wsopts(battery, name="battery_with_every_constructor_argument_variant"):
+    """Enumeration: each case of a small fixed battery with every variant of the WebSocket() constructor arguments that
+    only shape the upgrade request (gen.WSOPTS_VALUES): they must make no difference to anything else."""
+    def make():
+        from . import gen
+        for key, values in sorted(gen.WSOPTS_VALUES.items()):
+            for v in values:
+                for case in battery:
+                    yield dict(case, wsopts_noise={key: v})
+    return Enumeration(name, make, exhaustive=True)
+
+
 def with_debug_log(battery, name="battery_with_debug_logging_enabled"):
     """Enumeration: each case of a small fixed battery while the application has DEBUG logging switched on for the
     'lomond' logger (every record is formatted by a handler, so the arguments of every log call are evaluated)."""
@@ -313,6 +325,9 @@ def guarded_run(prop, case):
         if isinstance(case, dict) and case.get("copts_noise"):
             # connect() options that should make no difference to this property (the scenario's own ones win)
             simnet.CASE_COPTS = dict(case["copts_noise"])
+        if isinstance(case, dict) and case.get("wsopts_noise"):
+            # WebSocket() constructor arguments that should make no difference to this property
+            simnet.CASE_WSOPTS = dict(case["wsopts_noise"])
         if isinstance(case, dict) and case.get("noise_calls"):
             simnet.CASE_NOISE = list(case["noise_calls"])
         del simnet.NOISE_PROBLEMS[:]
@@ -347,6 +362,7 @@ def guarded_run(prop, case):
         simnet.CASE_PRELUDE = None
         simnet.CASE_COMPANION = None
         simnet.CASE_COPTS = None
+        simnet.CASE_WSOPTS = None
         simnet.CASE_NOISE = None
         if debug_log:
             debug_log[0].removeHandler(_SINK)
